@@ -1,6 +1,7 @@
 import JediModel.Gen.C06
 import JediModel.Lemmas.Refactor
 import JediModel.Lemmas.ExtractIO
+import JediModel.Lemmas.NonExtractable
 /-! # C06 — Extract / inline keep the program valid and equivalent
 
 Property theorems only.  What is a theorem here: the shape of `inline`'s outcome, the
@@ -359,5 +360,72 @@ theorem extract_inputs_source_shape :
   decide
 
 end ExtractInputs
+
+/-! ## extract_function: which statement selections are refused
+
+`_check_for_non_extractables` (model `NonExtractable.check`; its three branches and the statements behind them are read
+from the source as data by the translator: `Gen.C06.checkLoopBranch` ..., which recursive call gets which part of the
+children and which value of `in_loop`, and whether `in_loop` is rebound).  A statement selection that is moved into a
+new function must not contain `return` / `yield`, nor a `break` / `continue` whose loop stays behind
+(`NonExtractable.loose`, a definition that does not look at the code).  What is proved: the function refuses exactly
+these selections; the flag it passes on never leaks from a node to its later siblings. -/
+section NonExtractables
+open JediModel.NonExtractable
+
+/-- the function of the source, as translated -/
+def checkProg : Option Prog :=
+  Prog.decode Gen.C06.checkAlwaysRefused Gen.C06.checkJumpKeywords Gen.C06.checkLoopBranch
+    Gen.C06.checkScopeBranch Gen.C06.checkOtherBranch Gen.C06.checkTail
+
+/-- the translation is the reference shape (a source edit that changes a recursive call, the flag it passes, or
+rebinds `in_loop` makes this fail) -/
+theorem check_source_shape : checkProg = some reference := by decide
+
+/-- FULL statement: `_check_for_non_extractables(nodes)` raises iff the selection contains `return` / `yield`
+anywhere or a `break` / `continue` that is not enclosed by a loop of the selection (a nested def / class / lambda
+starts afresh, the `else` clause of a loop is outside of that loop) -/
+theorem refuses_iff_loose (P : Prog) (h : checkProg = some P) (sel : Sel) : refuses P sel = loose sel false := by
+  rw [check_source_shape] at h
+  cases h
+  simp [refuses, check_reference]
+
+/-- the hypotheses are satisfiable, non-trivially: a loop (with a jump of its own) followed by a jump of a loop that
+is not selected is refused, the loop alone is not -/
+example : ∃ P, checkProg = some P ∧
+    refuses P (.loop (.other (.leaf "break" .done) .done) .done (.other (.leaf "continue" .done) .done)) = true ∧
+    refuses P (.loop (.other (.leaf "break" .done) .done) .done .done) = false :=
+  ⟨reference, check_source_shape, by decide, by decide⟩
+
+/-- `in_loop` is not rebound in the source: every later sibling of a node is checked with the flag of the call -/
+theorem flag_does_not_leak (P : Prog) (h : checkProg = some P) (sel : Sel) (fl : Bool) : (check P sel fl).2 = fl := by
+  rw [check_source_shape] at h
+  cases h
+  exact check_flag reference (by decide) sel fl
+
+example : ∃ P, checkProg = some P := ⟨reference, check_source_shape⟩
+
+/-- the general reason: ANY variant of the function whose branches do not rebind the flag keeps it for the siblings -/
+theorem constant_flag_does_not_leak (P : Prog) (h : P.flagIsConstant = true) (sel : Sel) (fl : Bool) :
+    (check P sel fl).2 = fl := check_flag P h sel fl
+
+example : reference.flagIsConstant = true := by decide
+
+/-- kernel-checked counter-witness for a variant that is NOT the source: one shared recursive call with the flag rebound
+in front of it (`in_loop = True` in the loop branch, `in_loop = False` in the scope branch).  The flag stays set for
+the later siblings: a complete loop followed by a `break` of an enclosing, unselected loop is accepted although the
+specification forbids it; alone, in front of the loop, or in the loop's else clause the same `break` is refused -/
+theorem shared_call_variant_accepts_loose_jump :
+    let brk : Sel := .other (.leaf "break" .done) .done
+    refuses sharedCall (.loop .done .done brk) = false ∧ loose (.loop .done .done brk) false = true ∧
+    refuses sharedCall brk = true ∧ refuses sharedCall (.other (.leaf "break" .done) (.loop .done .done .done)) = true ∧
+    refuses sharedCall (.loop .done brk .done) = true ∧ sharedCall.flagIsConstant = false := by decide
+
+/-- second counter-witness: a variant that treats the `else` clause as part of the loop accepts a jump there -/
+theorem else_in_loop_variant_accepts_loose_jump :
+    let P : Prog := { reference with loop := [.call .all .tt] }
+    let sel : Sel := .loop .done (.other (.leaf "continue" .done) .done) .done
+    refuses P sel = false ∧ loose sel false = true := by decide
+
+end NonExtractables
 
 end JediModel.Props.C06
